@@ -280,7 +280,7 @@ def f_num_converged(gen, report, defs_out):
                        ("flags are computed from the current Ritz data", "S->st_conv == S->st_ritz"),
                        ("flag i is computed from value i and estimate i", "!(0 <= g_i && g_i < S->m_nev && S->tag_val[g_i] == S->tag_est[g_i]) || S->tag_conv[g_i] == S->tag_val[g_i]"),
                        ("all flags set <=> count == nev (at the Skolem index)", "!(0 <= g_i && g_i < S->m_nev) || ((ret < S->m_nev || S->m_ritz_conv[g_i]) && (ret > 0 || !S->m_ritz_conv[g_i]))")],
-                 frame=["S->m_ritz_conv", "S->tag_conv", "S->cnt_conv", "S->st_conv"],
+                 frame=["S->cnt_conv", "S->st_conv"], frame_fresh=[("S->m_ritz_conv", "_Bool"), ("S->tag_conv", "Index")],
                  real=hdr + ":num_converged")
     t = emit_solver_fn(hdr, cls, "num_converged", "num_converged", report, ret_c="Index", extra=extra,
                        pre=[pow_rule(defs_out)], contract=spec.frame_contract(), params={"tol": "Scalar"})
@@ -383,7 +383,8 @@ def f_retrieve_ritzpair_herm(report):
              "!(0 <= g_i && g_i < S->m_ncv) || (S->tag_val[g_i] == S->tag_est[g_i] && 0 <= S->tag_val[g_i] && S->tag_val[g_i] < S->m_ncv && (g_i >= S->m_nev || S->m_ritz_vec.coltag[g_i] == S->tag_val[g_i]))"),
             ("distinct positions hold distinct eigenpairs (a permutation of the decomposition)",
              "!(%s) || S->tag_val[g_i] != S->tag_val[g_j]" % both),
-            ("Ritz data stamped with the fresh decomposition", "S->st_ritz == g_clock && g_clock == old_clock + 1")]
+            ("Ritz data stamped with the fresh decomposition", "S->st_ritz == g_clock"),
+            ("one clock tick", "g_clock == old_clock + 1")]
     for r, cl in ordered_clause("S->m_ritz_val"):
         post.append(("wanted-first order by the selection rule %s: no later Ritz value strictly precedes an earlier one" % r,
                      "!(%s && S->m_ritz_val[g_i] == S->m_ritz_val[g_i] && S->m_ritz_val[g_j] == S->m_ritz_val[g_j]) || verif_ordered_%s(selection, S->m_ritz_val[g_i], S->m_ritz_val[g_j])" % (both, r)))
@@ -394,9 +395,9 @@ def f_retrieve_ritzpair_herm(report):
                  pre=[("Ritz arrays hold ncv entries", "VEC_SIZE(S->m_ritz_val) == S->m_ncv && VEC_SIZE(S->m_ritz_est) == S->m_ncv && VEC_SIZE(S->tag_val) == S->m_ncv && VEC_SIZE(S->tag_est) == S->m_ncv"),
                       ("projected matrix is ncv x ncv, Ritz vector matrix ncv x nev", "S->m_fac.m_fac_H.rows == S->m_ncv && S->m_fac.m_fac_H.cols == S->m_ncv && S->m_ritz_vec.rows == S->m_ncv && S->m_ritz_vec.cols == S->m_nev"),
                       ("1 <= nev < ncv", "1 <= S->m_nev && S->m_nev < S->m_ncv && S->m_ncv <= NMAX"),
-                      ("clock bounded", "0 <= g_clock && g_clock <= 1000000000")],
+                      ("clock bounded", "0 <= g_clock && g_clock <= 4 * CAP")],
                  post=post,
-                 exc_post=[("unsupported selection rule or failed decomposition: invalid_argument / runtime_error", "1")],
+                 exc_post=[("unsupported selection rule or failed decomposition: invalid_argument / runtime_error; clock at most one tick", "old_clock <= g_clock && g_clock <= old_clock + 1")],
                  frame=["S->st_ritz", "g_clock", "g_ia", "g_ib", "g_va", "g_vb"],
                  frame_objs=["S->m_ritz_val", "S->m_ritz_est", "S->tag_val", "S->tag_est", "S->m_ritz_vec.coltag"],
                  may_throw=[1, 2], olds=[("Index", "old_clock", "g_clock")], real=HB + ":retrieve_ritzpair")
@@ -463,7 +464,9 @@ def sort_spec(gen, hdr, cname="sort_ritzpair", extra_post=(), extra_frame=()):
                  post=post + list(extra_post),
                  exc_post=[("rejected <=> sorting rule not supported by this solver family", "!%s && verif_exc == EXC_invalid_argument" % ok),
                            ("nothing modified when the rule is rejected", "S->cnt_conv == old_cnt && S->st_conv == old_stc && S->st_ritz == old_str")],
-                 frame=["S->m_ritz_val", "S->tag_val", "S->m_ritz_vec", "S->m_ritz_conv", "S->tag_conv", "g_ia", "g_ib", "g_va", "g_vb"] + list(extra_frame),
+                 frame=["g_ia", "g_ib", "g_va", "g_vb"] + list(extra_frame),
+                 frame_fresh=[("S->m_ritz_val", "Ritz"), ("S->tag_val", "Index"), ("S->m_ritz_conv", "_Bool"), ("S->tag_conv", "Index")],
+                 frame_fresh_mat=["S->m_ritz_vec"],
                  may_throw=[1],
                  olds=[("Index", "old_tv", "(0 <= g_p && g_p < S->m_nev) ? S->tag_val[g_p] : 0"), ("Index", "old_tc", "(0 <= g_p && g_p < S->m_nev) ? S->tag_conv[g_p] : 0"),
                        ("Index", "old_ct", "(0 <= g_p && g_p < S->m_nev) ? S->m_ritz_vec.coltag[g_p] : 0"), ("_Bool", "old_cv", "(0 <= g_p && g_p < S->m_nev) ? S->m_ritz_conv[g_p] : 0"),
@@ -495,7 +498,8 @@ def fac_post_fn(mats, vecs, stmts_out, ptr_vecs=()):
     """Structural rewrites shared by all factorization functions, then the lexical Eigen-statement abstraction."""
     def fn(b, R):
         # Map declarations
-        b = R.sub("map-vec", r"\bMap(?:Const)?Vec\s+(\w+)\(([^;]+?),\s*([^;,]+)\);",
+        b = R.sub("mat-decl", r"(?<![\w:])(?:Real)?Matrix\s+(\w+)\(([^;]+?),\s*([^;,]+)\);", r"Mat \1 = MAT_NEW(\2, \3);", b)
+        b = R.sub("map-vec", r"\bQ?Map(?:Const)?Vec\s+(\w+)\(([^;]+?),\s*([^;,]+)\);",
                   r"Scalar *\1 = (Scalar *)(\2); MAPLEN_CHECK(\1, \3);", b)
         b = R.sub("map-mat", r"\bMap(?:Const)?Mat\s+(\w+)\(([\w>.-]+)\.data\(\),\s*([^;,]+),\s*([^;,]+)\);",
                   r"Mat \1 = MAT_LEFTCOLS(&\2, \3, \4);", b)
@@ -614,19 +618,23 @@ def factorize_spec(which):
                      ("target dimension fits the allocated basis", "to_m <= F->m_m"),
                      ("typestate: (V, H, f) is a valid factorization exactly at step from_k == current dimension", "from_k == F->g_valid_k && F->m_k == F->g_valid_k"),
                      ("residual norm is a norm", "F->m_beta >= (Scalar)0")],
-                 post=[("advertised dimension", "F->m_k == (%s ? to_m : old_k)" % ext),
+                 post=[("counters only grow, by at most two per added column",
+                        "old_ops <= g_ops && g_ops <= old_ops + 2 * NMAX && old_cnt <= (*op_counter) && (*op_counter) <= old_cnt + 2 * NMAX"),
+                       ("advertised dimension", "F->m_k == (%s ? to_m : old_k)" % ext),
                        ("typestate: valid factorization at the advertised dimension", "F->g_valid_k == F->m_k"),
                        ("every operator application is counted", "g_ops - old_ops == (*op_counter) - old_cnt"),
                        ("work: between 1 and 2 operator applications per added column",
                         "%s ? (to_m - from_k <= g_ops - old_ops && g_ops - old_ops <= 2 * (to_m - from_k)) : g_ops == old_ops" % ext),
                        ("residual norm is a norm", "F->m_beta >= (Scalar)0"),
-                       ("shapes preserved", FAC_INV[0][1])],
-                 exc_post=[("only the operator's exception (precondition excludes from_k > k): entered once more than counted",
+                       ("shapes preserved", FAC_INV[0][1]),
+                       ("at most one clock tick", "old_clock <= g_clock && g_clock <= old_clock + 1")],
+                 exc_post=[("counters only grow", "old_ops <= g_ops && g_ops <= old_ops + 2 * NMAX + 1 && old_cnt <= (*op_counter) && (*op_counter) <= old_cnt + 2 * NMAX"),
+                           ("only the operator's exception (precondition excludes from_k > k): entered once more than counted",
                             "verif_exc == EXC_user && g_ops - old_ops == (*op_counter) - old_cnt + 1"),
-                           ("shapes preserved", FAC_INV[0][1])],
+                           ("shapes preserved", FAC_INV[0][1]), ("clock", "g_clock == old_clock")],
                  frame=["F->m_k", "F->g_valid_k", "F->m_beta", "*op_counter", "g_ops", "F->m_fac_V.cell", "F->m_fac_H.cell", "F->st_fac", "g_clock"],
                  frame_objs=["F->m_fac_f", "F->m_fac_V.colbuf"] + (["F->m_fac_H.colbuf"] if which == "Arnoldi" else []), may_throw=[1, 7],
-                 olds=[("Index", "old_ops", "g_ops"), ("Index", "old_cnt", "*op_counter"), ("Index", "old_k", "F->m_k")],
+                 olds=[("Index", "old_ops", "g_ops"), ("Index", "old_cnt", "*op_counter"), ("Index", "old_k", "F->m_k"), ("Index", "old_clock", "g_clock")],
                  real=hdr + ":factorize_from")
 
 
@@ -673,11 +681,13 @@ def init_fac_spec():
                        ("buffers (re)allocated to their shapes whatever they were before", FAC_INV[0][1]),
                        ("exactly two operator applications, both counted", "g_ops == old_ops + 2 && (*op_counter) == old_cnt + 2"),
                        ("residual norm is a norm", "F->m_beta >= (Scalar)0"),
-                       ("factorization stamped fresh", "F->st_fac == g_clock && g_clock > old_clock")],
-                 exc_post=[("zero start vector -> invalid_argument before any operator application; operator exception propagates",
+                       ("factorization stamped fresh", "F->st_fac == g_clock && g_clock == old_clock + 1")],
+                 exc_post=[("counters only grow", "old_ops <= g_ops && g_ops <= old_ops + 2 && old_cnt <= (*op_counter) && (*op_counter) <= old_cnt + 2"),
+                           ("zero start vector -> invalid_argument before any operator application; operator exception propagates",
                             "(verif_exc == EXC_invalid_argument && g_ops == old_ops && (*op_counter) == old_cnt) || (verif_exc == EXC_user && g_ops - old_ops == (*op_counter) - old_cnt + 1)"),
-                           ("buffers keep consistent shapes", FAC_INV[0][1])],
-                 frame=["F->m_k", "F->g_valid_k", "F->m_beta", "*op_counter", "g_ops", "F->m_fac_V", "F->m_fac_H", "F->m_fac_f", "F->st_fac", "g_clock", "F->g_Vdef", "g_div_zero"],
+                           ("buffers keep consistent shapes", FAC_INV[0][1]), ("clock", "g_clock == old_clock")],
+                 frame=["F->m_k", "F->g_valid_k", "F->m_beta", "*op_counter", "g_ops", "F->st_fac", "g_clock", "F->g_Vdef", "g_div_zero"],
+                 frame_fresh=[("F->m_fac_f", "Scalar")], frame_fresh_mat=["F->m_fac_V", "F->m_fac_H"],
                  may_throw=[1, 7],
                  olds=[("Index", "old_ops", "g_ops"), ("Index", "old_cnt", "*op_counter"), ("Index", "old_clock", "g_clock")],
                  real=AH + ":init")
@@ -708,3 +718,161 @@ DIV_SITE_DEF = r'''
 _Bool g_div_zero;      /* ghost: set when an audited division site is reached with a zero divisor */
 #define DIV_SITE(d, what) do { if ((d) == (Scalar)0) g_div_zero = 1; } while (0)
 '''
+
+
+# --------------------------------------------------------------------------- compress_H / compress_V
+
+QR_STUBS = r'''
+/* shifted-QR helper objects (contracts decided under C08): size, computed flag */
+typedef struct { Index n; _Bool computed; int nshift; } QRDecomp;
+static void QR_matrix_QtHQ(const QRDecomp *d, Mat *dest)
+{
+  if (!d->computed) { verif_exc = EXC_logic_error; return; }
+  dest->rows = d->n; dest->cols = d->n;          /* dest.resize(n, n) inside matrix_QtHQ */
+  dest->cell = nondet_Scalar();
+}
+'''
+
+
+def compress_H_spec(nshift, cname):
+    return FSpec(cname, "void", [("Fac *", "F"), ("const QRDecomp *", "decomp")],
+                 pre=[("decomposition computed, of the projected matrix's size", "decomp->computed && decomp->n == F->m_fac_H.rows && decomp->n == F->m_fac_H.cols"),
+                      ("dimension stays >= 1 after removing the shift(s)", "F->m_k >= 1 + %d && F->m_k <= F->m_m && F->m_m <= NMAX" % nshift)],
+                 post=[("each applied shift lowers the advertised dimension by its order", "F->m_k == old_k - %d" % nshift),
+                       ("H keeps its shape", "F->m_fac_H.rows == old_r && F->m_fac_H.cols == old_r"),
+                       ("(V, H, f) is not a valid factorization until compress_V", "F->g_valid_k == 0")],
+                 frame=["F->m_k", "F->g_valid_k", "F->m_fac_H.rows", "F->m_fac_H.cols", "F->m_fac_H.cell"], may_throw=[],
+                 olds=[("Index", "old_k", "F->m_k"), ("Index", "old_r", "F->m_fac_H.rows")], real="compress_H")
+
+
+def f_compress_H(report):
+    out = []
+    for hdr, cls, ordn, key, nshift, cname in ((LH, "Lanczos", 0, "TridiagQR", 1, "compress_H_tridiag"),
+                                               (AH, "Arnoldi", 0, "DoubleShiftQR", 2, "compress_H_ds"),
+                                               (AH, "Arnoldi", 1, "UpperHessenbergQR", 1, "compress_H_hb")):
+        f = X.locate(hdr, "compress_H", cls=cls, params_re=key)
+        spec = compress_H_spec(nshift, cname)
+        spec.real = hdr + ":compress_H(" + key + ")"
+        t, R = cgen.emit(f, cname, ret_c="void", self_type="Fac", self_name="F", members=FAC_MEMBERS,
+                         param_types={"decomp": "const QRDecomp *"},
+                         extra_rules=[("QtHQ", r"decomp\.matrix_QtHQ\(F->m_fac_H\);", "QR_matrix_QtHQ(decomp, &F->m_fac_H); F->g_valid_k = 0;", {"max": 1})],
+                         contract=spec.frame_contract())
+        report["%s::compress_H(%s)" % (cls, key)] = R.fired
+        out.append((t, spec))
+    return out
+
+
+def compress_V_spec():
+    return FSpec("compress_V", "void", [("Fac *", "F"), ("Mat", "Q")],
+                 pre=FAC_INV[:2] + [("clock bounded", "0 <= g_clock && g_clock <= 2 * CAP"), ("Q is the m x m accumulated rotation", "Q.rows == F->m_m && Q.cols == F->m_m"),
+                                    ("1 <= k <= m - 1: Q(m-1, k-1), H(k, k-1) and column k exist", "1 <= F->m_k && F->m_k <= F->m_m - 1")],
+                 post=[("dimension unchanged", "F->m_k == old_k"), ("valid k-step factorization again", "F->g_valid_k == F->m_k"),
+                       ("residual norm is a norm", "F->m_beta >= (Scalar)0"), ("shapes preserved", FAC_INV[0][1]),
+                       ("one clock tick", "g_clock == old_clock + 1 && F->st_fac == g_clock")],
+                 frame=["F->g_valid_k", "F->m_beta", "F->m_fac_V.cell", "F->m_fac_H.cell", "F->st_fac", "g_clock"],
+                 frame_fresh=[("F->m_fac_f", "Scalar")],
+                 frame_objs=["F->m_fac_V.colbuf"], olds=[("Index", "old_k", "F->m_k"), ("Index", "old_clock", "g_clock")], real=AH + ":compress_V")
+
+
+def f_compress_V(report):
+    stm = []
+    spec = compress_V_spec()
+    f = X.locate(AH, "compress_V", cls="Arnoldi")
+    t, R = cgen.emit(f, "compress_V", ret_c="void", self_type="Fac", self_name="F", members=FAC_MEMBERS,
+                     param_types={"Q": "Mat"},
+                     extra_rules=[("beta", r"F->m_beta = F->m_op\.norm\(F->m_fac_f\);", "F->m_beta = NONNEG_SCALAR(); F->g_valid_k = F->m_k; g_clock++; F->st_fac = g_clock;", {"max": 1})],
+                     post_fn=fac_post_fn(["m_fac_V", "m_fac_H", "Vs", "Q"], ["m_fac_f", "fk", "q"], stm),
+                     contract=spec.frame_contract(),
+                     loop_contracts={0: "__CPROVER_assigns(i, Vs.cell, Q.cell) __CPROVER_loop_invariant(0 <= i && i <= F->m_k) __CPROVER_decreases(F->m_k - i)"})
+    report["Arnoldi::compress_V"] = R.fired
+    report.setdefault("abstracted_statements", {})["Arnoldi::compress_V"] = stm
+    return t, spec
+
+
+# --------------------------------------------------------------------------- restart (Herm)
+
+QR_STUBS2 = r'''
+static void QR_compute(QRDecomp *d, Mat *H, Scalar shift)
+{
+  (void)shift;
+  if (H->rows != H->cols) { verif_exc = EXC_invalid_argument; return; }   /* "matrix must be square" */
+  d->n = H->rows; d->computed = 1;
+}
+static void QR_apply_YQ(const QRDecomp *d, Mat *Y)
+{
+  if (!d->computed) { verif_exc = EXC_logic_error; return; }
+  __CPROVER_assert(Y->cols == d->n, "apply_YQ: Y has as many columns as the decomposition's size");
+  Y->cell = nondet_Scalar();
+}
+/* std::sort over [first, first+n) with a comparator on the values: assumed [alg.sort] (permutes the range) */
+static void SORT_RANGE(Scalar *first, Index n)
+{ __CPROVER_assert(n >= 0 && __CPROVER_rw_ok(first, n * sizeof(Scalar)), "std::sort precondition: valid range"); if (n > 0) __CPROVER_havoc_object(first); }
+Index g_shift_lo, g_shift_n, g_shifts_applied;   /* ghost: first unwanted position used as shift, number of shifts taken / applied */
+'''
+
+SOLVER_INV_PRE = [
+    ("argument ranges established by the constructor", "RANGE_OK(S->m_nev, S->m_ncv, S->m_n) && S->m_n <= NMAX"),
+    ("factorization object belongs to this solver", "S->m_fac.m_n == S->m_n && S->m_fac.m_m == S->m_ncv && S->m_fac.m_op == S->m_op && S->m_op->n == S->m_n"),
+    ("buffers have their init() shapes",
+     "S->m_fac.m_fac_V.rows == S->m_n && S->m_fac.m_fac_V.cols == S->m_ncv && S->m_fac.m_fac_H.rows == S->m_ncv && S->m_fac.m_fac_H.cols == S->m_ncv && VEC_SIZE(S->m_fac.m_fac_f) == S->m_n && "
+     "VEC_SIZE(S->m_ritz_val) == S->m_ncv && VEC_SIZE(S->m_ritz_est) == S->m_ncv && VEC_SIZE(S->tag_val) == S->m_ncv && VEC_SIZE(S->tag_est) == S->m_ncv && "
+     "VEC_SIZE(S->m_ritz_conv) == S->m_nev && VEC_SIZE(S->tag_conv) == S->m_nev && S->m_ritz_vec.rows == S->m_ncv && S->m_ritz_vec.cols == S->m_nev"),
+    ("operation counter equals the true number of operator applications", "S->m_nmatop == g_ops && 0 <= g_ops && g_ops <= CAP && 0 <= g_clock && g_clock <= CAP"),
+    ("flag count within range; residual norm is a norm", "0 <= S->cnt_conv && S->cnt_conv <= S->m_nev && S->m_fac.m_beta >= (Scalar)0"),
+]
+SHAPES = SOLVER_INV_PRE[2][1]
+
+
+def restart_spec(gen, retrieve_post):
+    hdr = GB if gen else HB
+    return FSpec("restart", "void", [("Solver *", "S"), ("Index", "k"), ("SortRule", "selection")],
+                 pre=SOLVER_INV_PRE + [("restart size in [1, ncv-1] (result of nev_adjusted)", "1 <= k && k <= S->m_ncv - 1"),
+                                       ("typestate: full ncv-step factorization", "S->m_fac.m_k == S->m_ncv && S->m_fac.g_valid_k == S->m_ncv")],
+                 post=[("counters only grow", "old_ops <= g_ops && g_ops <= old_ops + 2 * NMAX"),
+                       ("full ncv-step factorization again", "S->m_fac.m_k == S->m_ncv && S->m_fac.g_valid_k == S->m_ncv"),
+                       ("shapes preserved", SHAPES),
+                       ("operation counter equals the true number of operator applications", "S->m_nmatop == g_ops"),
+                       ("work of one restart: between ncv-k and 2(ncv-k) operator applications", "S->m_ncv - k <= g_ops - old_ops && g_ops - old_ops <= 2 * (S->m_ncv - k)"),
+                       ("shifts are exactly the unwanted Ritz values: positions [k, ncv), ncv-k of them, each applied once",
+                        "g_shift_lo == k && g_shift_n == S->m_ncv - k && g_shifts_applied == S->m_ncv - k"),
+                       ("flags untouched by a restart", "S->cnt_conv == old_cnt && S->st_conv == old_stc"),
+                       ("residual norm is a norm", "S->m_fac.m_beta >= (Scalar)0"),
+                       ("clock advances by 2 or 3 ticks", "old_clock + 2 <= g_clock && g_clock <= old_clock + 3")] + [c for c in retrieve_post if "old_clock" not in c[1]],
+                 exc_post=[("counters only grow", "old_ops <= g_ops && g_ops <= old_ops + 2 * NMAX + 1 && 0 <= S->m_nmatop && S->m_nmatop <= g_ops && old_clock <= g_clock && g_clock <= old_clock + 3"),
+                           ("operator / decomposition exceptions propagate; counter lags by at most the interrupted application",
+                            "(verif_exc == EXC_user ? g_ops == S->m_nmatop + 1 : (S->m_nmatop == g_ops && (verif_exc == EXC_invalid_argument || verif_exc == EXC_runtime_error)))"),
+                           ("shapes preserved", SHAPES)],
+                 frame=["S->m_nmatop", "g_ops", "g_clock", "S->st_ritz", "g_ia", "g_ib", "g_va", "g_vb", "g_shift_lo", "g_shift_n", "g_shifts_applied",
+                        "S->m_fac.m_k", "S->m_fac.g_valid_k", "S->m_fac.m_beta", "S->m_fac.m_fac_V.cell", "S->m_fac.m_fac_H.cell", "S->m_fac.m_fac_H.rows",
+                        "S->m_fac.m_fac_H.cols", "S->m_fac.st_fac"],
+                 frame_objs=["S->m_ritz_val", "S->m_ritz_est", "S->tag_val", "S->tag_est", "S->m_ritz_vec.coltag", "S->m_fac.m_fac_V.colbuf"] + (["S->m_fac.m_fac_H.colbuf"] if gen else []),
+                 frame_fresh=[("S->m_fac.m_fac_f", "Scalar")],
+                 may_throw=[1, 2, 7],
+                 olds=[("Index", "old_ops", "g_ops"), ("Index", "old_cnt", "S->cnt_conv"), ("Index", "old_stc", "S->st_conv"), ("Index", "old_clock", "g_clock")],
+                 real=hdr + ":restart")
+
+
+def f_restart_herm(report, retrieve_post):
+    spec = restart_spec(False, retrieve_post)
+    extra = accessor_rules(report) + [
+        ("decomp", r"TridiagQR<RealScalar> decomp\(([^;]+)\);", r"QRDecomp decomp; decomp.n = (\1); decomp.computed = 0; decomp.nshift = 1;", {"max": 1}),
+        ("Q", r"RealMatrix Q = RealMatrix::Identity\(([^;]+)\);", r"Mat Q = MAT_NEW(\1);", {"max": 1}),
+        ("shifts", r"RealVector shifts = S->m_ritz_val\.tail\(([^;]+)\);",
+         r"SEG_CHECK(S->m_ritz_val, \1); Scalar *shifts = VEC_NEW(\1); g_shift_lo = VEC_SIZE(S->m_ritz_val) - (\1); g_shift_n = (\1); g_shifts_applied = 0;", {"max": 1}),
+        ("sort", r"std::sort\(shifts\.data\(\), shifts\.data\(\) \+ (\w+),\s*\[\]\(const RealScalar& v1, const RealScalar& v2\) \{ return FABS\(v1\) > FABS\(v2\); \}\);",
+         r"SORT_RANGE(shifts, \1);", {"max": 1}),
+        ("compute", r"decomp\.compute\(S->m_fac\.m_fac_H\.real\(\), ([^;]+)\);", r"QR_compute(&decomp, &S->m_fac.m_fac_H, \1);", {"max": 1}),
+        ("apply_YQ", r"decomp\.apply_YQ\(Q\);", "QR_apply_YQ(&decomp, &Q);", {"max": 1}),
+        ("compress_H", r"S->m_fac\.compress_H\(decomp\);", "compress_H_tridiag(&S->m_fac, &decomp); g_shifts_applied++;", {"max": 1}),
+        ("compress_V", r"S->m_fac\.compress_V\(Q\);", "compress_V(&S->m_fac, Q);", {"max": 1}),
+        ("factorize", r"S->m_fac\.factorize_from\(([^;]+), S->m_nmatop\);", r"factorize_from(&S->m_fac, \1, &S->m_nmatop);", {"max": 1}),
+        ("retrieve", r"(?<![\w>])retrieve_ritzpair\(selection\);", "retrieve_ritzpair(S, selection);", {"max": 1}),
+    ]
+    inv = ("__CPROVER_assigns(i, decomp, Q.cell, g_shifts_applied, verif_exc, S->m_fac.m_k, S->m_fac.g_valid_k, S->m_fac.m_fac_H.rows, S->m_fac.m_fac_H.cols, S->m_fac.m_fac_H.cell) "
+           "__CPROVER_loop_invariant(0 <= i && i <= nshift && verif_exc == 0 && g_shifts_applied == i && S->m_fac.m_k == S->m_ncv - i && "
+           "S->m_fac.m_fac_H.rows == S->m_ncv && S->m_fac.m_fac_H.cols == S->m_ncv && (i == 0 || S->m_fac.g_valid_k == 0)) "
+           "__CPROVER_decreases(nshift - i)")
+    t = emit_solver_fn(HB, "HermEigsBase", "restart", "restart", report, ret_c="void", extra=extra, loops={0: inv},
+                       contract=spec.frame_contract(),
+                       maythrow=["QR_compute", "QR_apply_YQ", "compress_H_tridiag", "compress_V", "factorize_from", "retrieve_ritzpair"])
+    return t, spec
